@@ -227,6 +227,15 @@ def _apply_section(sec, head, it, data, s0, e0, what, edits, drop, tags_box, ret
         if not ghost_only(body):
             raise GenError(f"template line {tl}: spliced text is not ghost-only")
         edits.append(Edit(lp["body_start"] + 1, lp["body_start"] + 1, "\n" + body + "\n", "ins:loopbody", tl))
+    elif kw == "wrapcast":
+        # X4 (structural): every `EXPR as TYPE` cast of the function is routed through a trusted wrapper function
+        # (Verus gives integer-to-float casts no meaning); written `wrapcast f64 crate::u32_as_f64`
+        ty, fn_ = w[1], w[2].rstrip(":")
+        for c in it.get("casts", []):
+            if c["ty"].strip() == ty:
+                (a, b), (ea, eb) = c["span"], c["expr"]
+                edits.append(Edit(a, ea, fn_ + "(", "X4:wrapcast", tl))
+                edits.append(Edit(eb, b, ")", "X4:wrapcast", tl))
     elif kw in ("beforeloop", "afterloop"):
         # structural anchors: ghost text right before / right after loop K (when the loop is a statement)
         k = int(w[1].rstrip(":"))
